@@ -36,15 +36,24 @@ def load_known():
 
 
 
+_REPLAY_CACHE = {}
+
+
 def replay_any(prop, index, name, ob, seed):
     """Try every replayer whose key matches `name` (prefix or glob), most specific key first; return the first hit, else the last miss."""
     last = None
     keys = [k for k in prop.replayers if name.startswith(k) or fnmatch.fnmatch(name, k)]
     for k in sorted(keys, key=len, reverse=True):
-        try:
-            r = prop.replayers[k](index, ob, seed)
-        except Exception as e:
-            r = {"found": False, "error": f"{type(e).__name__}: {e}"}
+        fn = prop.replayers[k]
+        ck = (getattr(fn, "__name__", None) or id(fn), seed)
+        if ck in _REPLAY_CACHE:
+            r = _REPLAY_CACHE[ck]          # the native replayers search the real code of this tree for this seed: one run per check is enough
+        else:
+            try:
+                r = fn(index, ob, seed)
+            except Exception as e:
+                r = {"found": False, "error": f"{type(e).__name__}: {e}"}
+            _REPLAY_CACHE[ck] = r
         last = r
         if r and r.get("found"):
             return r
